@@ -65,8 +65,11 @@ def _convertCFF2ToCFF(cff, otFont):
     defaults = buildDefaults(privateDictOperators)
     order = buildOrder(privateDictOperators)
     for fd in fdArray:
-        fd.setCFF2(False)
+        # Load the lazily-parsed Private dict and its Subrs INDEX while the
+        # font dict still says CFF2: a CFF2 INDEX has a 4-byte count.
         privateDict = fd.Private
+        getattr(privateDict, "Subrs", None)
+        fd.setCFF2(False)
         privateDict.order = order
         for key in order:
             if key not in privateDict.rawDict and key in defaults:
